@@ -180,8 +180,10 @@ class Interp:
         self.np = npmodel.make_numpy(self)
         self.mathmod = npmodel.make_math(self)
         self.builtins = npmodel.make_builtins(self)
-        self.loop_handler = None
+        from . import loops
+        self.loop_handler = loops.loop_handler
         self.max_unroll = 64
+        self.hints = None
         self.call_depth = 0
 
     # -- module loading ---------------------------------------------------------------
@@ -337,6 +339,8 @@ class Interp:
 
     def assign(self, t, v, env):
         if isinstance(t, ast.Name):
+            if self.hints is not None and (T._safety_ctx[-1], t.id) in self.hints.hooks:
+                v = self.hints.apply(T._safety_ctx[-1], t.id, v, env)
             env.vars[t.id] = v
         elif isinstance(t, (ast.Tuple, ast.List)):
             vals = self.iterate(v)
@@ -889,6 +893,8 @@ class Interp:
 
     def setattr(self, obj, name, v):
         if isinstance(obj, PyObj):
+            if A._rec[0] is not None:
+                A._rec[0].on_setattr(obj, name)
             obj.attrs[name] = v
             return
         raise EngineError("setattr on %r" % (obj,))
@@ -1195,7 +1201,7 @@ class Interp:
         if self.call_depth > 60:
             self.call_depth = 0
             raise PyException(self.make_exc("RuntimeError", "maximum recursion depth exceeded"))
-        T._safety_ctx.append(qn.split("::")[1])
+        T._safety_ctx.append(f.module.split(".")[-1] + "." + qn.split("::")[1])
         try:
             if isinstance(f.node, ast.Lambda):
                 return self.eval(f.node.body, env)
